@@ -26,7 +26,8 @@
 (* produced OpenAI request back to tokens (-1 = not recoverable).          *)
 (*                                                                         *)
 (* State machine per request:  Submitted --Translate(result)--> Translate  *)
-(* --Http(observation)--> Http.  Translate/Http are enabled only for       *)
+(* --Http(observation)--> Http --End--> End (either observation may be     *)
+(* missing, not both).  Translate/Http are enabled only for                *)
 (* results that the property allows (Judge / HttpJudge), so a recorded     *)
 (* result is a step of this specification iff the property holds for it.   *)
 (***************************************************************************)
@@ -70,7 +71,7 @@ DimVals(d) ==
       [] d = "tc"     -> {"absent", "s_auto", "s_any", "s_none", "o_auto", "o_any", "o_none", "o_tool", "o_tool_noname"}
       [] d = "unk"    -> {"none", "top"}
       [] d = "body"   -> {"ok", "trunc", "notjson", "array"}
-      [] d = "extra"  -> {"none", "topk", "meta"}
+      [] d = "extra"  -> {"none", "topk", "meta", "toolcc"}
 
 -----------------------------------------------------------------------------
 (* Which requests are valid.                                               *)
@@ -79,7 +80,8 @@ DimVals(d) ==
 (*   either : the property does not say (unknown top-level field, string   *)
 (*            tool_choice, tool_choice without tools, conversations the    *)
 (*            Anthropic API itself refuses: empty text, results that do    *)
-(*            not answer the preceding assistant turn, ...): the request   *)
+(*            not answer the preceding assistant turn, ..., a caching      *)
+(*            marker on a tool definition): the request                    *)
 (*            may be refused, but if it is translated it must be           *)
 (*            translated faithfully.                                       *)
 (*   valid  : must be translated faithfully.                               *)
@@ -119,6 +121,7 @@ InvalidCfg(c, msgs) ==
 
 Unspecified(c, msgs) ==
     \/ c.unk # "none"
+    \/ (c.extra = "toolcc" /\ c.tools > 0)
     \/ c.tc \in {"s_auto", "s_any", "s_none"}
     \/ (c.tools = 0 /\ c.tc # "absent")
     \/ ~Conforming(msgs)
@@ -257,6 +260,11 @@ Http(h, D) == /\ act \in {"Submitted", "Translate"}
               /\ hres' = h /\ act' = "Http" /\ dev' = D
               /\ UNCHANGED <<req, res>>
 
+\* a request is finished only after at least one observation
+End == /\ act \in {"Translate", "Http"}
+       /\ act' = "End" /\ dev' = {}
+       /\ UNCHANGED <<req, res, hres>>
+
 -----------------------------------------------------------------------------
 (* Reference translators, used to model-check the relation itself: the     *)
 (* outputs of two different faithful translators must be accepted, the     *)
@@ -331,6 +339,7 @@ Init == /\ req \in {[msgs |-> ms, cfg |-> c] : ms \in MCConvs, c \in {DefaultCfg
         /\ res = NoRes /\ hres = NoH /\ act = "Submitted" /\ dev = {}
 Next == \/ \E x \in RefResults(req) : Translate(x, {})
         \/ \E h \in RefHttp(req) : Http(h, {})
+        \/ End
 Spec == Init /\ [][Next]_vars
 
 -----------------------------------------------------------------------------
